@@ -294,6 +294,14 @@ enum Chunk {
     Pairs(usize, usize),  // representative kinds a, b
     Triples(usize, usize),
     Folded(usize), // slice of the 10000 slots whose hash the tool recognises when pre-folded
+    Crowd(usize),  // dominant kind index: many variables of one kind next to one of another kind
+}
+
+/// Kinds that may dominate a contract: the representative ones and a six-field packed word.
+fn crowd_kinds() -> Vec<Kind> {
+    let mut v = representative_kinds();
+    v.push(Kind::Packed(vec![(0, 1), (1, 2), (3, 3), (6, 4), (10, 5), (15, 17)]));
+    v
 }
 
 const FOLDED_SLICES: usize = 16;
@@ -314,6 +322,9 @@ fn plan(tier: Tier) -> Vec<Chunk> {
     }
     for s in 0..FOLDED_SLICES {
         v.push(Chunk::Folded(s));
+    }
+    for d in 0..crowd_kinds().len() {
+        v.push(Chunk::Crowd(d));
     }
     let r = representative_kinds().len();
     for a in 0..r {
@@ -475,6 +486,40 @@ impl Check for C04 {
                     }
                 }
             }
+            Chunk::Crowd(d) => {
+                // 4 to 12 variables: n variables of one kind at consecutive slots and one variable of each other kind at
+                // slot 1; what is inferred for the single variable must not depend on how much evidence surrounds it
+                let dominant = crowd_kinds()[d].clone();
+                for n in [3usize, 6, 11] {
+                    for other in representative_kinds() {
+                        for dom_mode in [Mode::Read, Mode::Both] {
+                            for sp in 0..2usize {
+                                let mut vars = vec![(
+                                    Var {
+                                        slot: U::ONE,
+                                        kind: other.clone(),
+                                    },
+                                    Mode::Both,
+                                )];
+                                for i in 0..n {
+                                    vars.push((
+                                        Var {
+                                            slot: U::from_u64(10 + i as u64),
+                                            kind: dominant.clone(),
+                                        },
+                                        dom_mode,
+                                    ));
+                                }
+                                let branches: usize = vars.iter().map(|(v, m)| fragments(v, *m, &SPELLINGS[sp]).len()).sum();
+                                if branches >= 100 {
+                                    continue;
+                                }
+                                run(ctx, "many_variables", &Case { vars, spelling: sp });
+                            }
+                        }
+                    }
+                }
+            }
             Chunk::Pairs(a, b) => {
                 let ks = representative_kinds();
                 let sl = slots();
@@ -571,7 +616,7 @@ impl Check for C04 {
              associated either way) x 4 spellings (mul/shl packing, shr/div unpacking, mask on either side of AND, hash on \
              either side of ADD); all {} splits of a 32-byte word into 2..{} fields at byte boundaries as packed variables; dynamic arrays whose keccak(slot) is \
              pre-folded into a PUSH constant at EVERY slot 0..9999 (the range the tool documents) x read / write x constant on either \
-             side of ADD; all ordered \
+             side of ADD; contracts of 4, 7 and 12 variables (3, 6 or 11 variables of one of 8 kinds incl. a six-field packed word at consecutive slots, read or read and written, next to one variable of each representative kind); all ordered \
              pairs{} of 7 representative kinds at all ordered slot pairs x 9 mode pairs x 4 spellings. Oracle: an entry at exactly the \
              slot whose kind matches (mapping nested to the right depth, dynamic array, packed fields at the right bit offsets with \
              the right widths, 20-byte quantity for 160-bit-masked words / keys / values). non-trivial = every generated program; \
@@ -585,7 +630,7 @@ impl Check for C04 {
     fn assumptions(&self, _tier: Tier) -> Vec<String> {
         vec![
             "element / value types beyond what the statement names, extra entries and conflict payloads are don't-cares".into(),
-            "the property's 1-12 variables are replaced by 1-2 (3 in the thorough tier): 2 already gives every pairwise interaction".into(),
+            "the property's 1-12 variables: all kinds and modes are crossed for 1-2 variables (3 in the thorough tier), which gives every pairwise interaction; 4-12 variables only in the many-variable family (one dominant kind plus one other variable)".into(),
             "the spelling shl(k, and(v, m)) is not generated: solc does not emit it and the tool documents only mask = sub-word, power-of-two multiply = shift".into(),
         ]
     }
